@@ -12,6 +12,7 @@ package fakeredis
 import (
 	"bufio"
 	"fmt"
+	"io"
 	"net"
 	"sort"
 	"strings"
@@ -33,6 +34,9 @@ type Event struct {
 	Argv   []string    `json:"argv,omitempty"`
 	Reply  *resp.Value `json:"reply,omitempty"`
 	Note   string      `json:"note,omitempty"`
+	// Arr (recv events): when the client started the Write that carried the last byte of the request, which
+	// can be earlier than At, the moment the server got round to reading and parsing it (a slow command ahead).
+	Arr int64 `json:"arr_us,omitempty"`
 }
 
 func (e Event) String() string {
@@ -258,15 +262,16 @@ type outItem struct {
 }
 
 type Conn struct {
-	ID   int
-	S    *Server
-	nc   net.Conn
-	mu   sync.Mutex
-	cnd  *sync.Cond
-	out  []outItem
-	dead bool
-	hung bool
-	nreq int
+	ID       int
+	S        *Server
+	nc       net.Conn
+	arrivals *arrivalLog
+	mu       sync.Mutex
+	cnd      *sync.Cond
+	out      []outItem
+	dead     bool
+	hung     bool
+	nreq     int
 	// BurstIdx is the position of the current command within the burst of commands that arrived
 	// together (0 = the server had to wait for it); scenarios use it to delay only burst starts.
 	BurstIdx int
@@ -307,6 +312,7 @@ func (s *Server) dial() (net.Conn, error) {
 	}
 	c := &Conn{ID: s.nextConn, S: s, nc: srv, Proto: 2, User: "default", subs: map[string]bool{}, psubs: map[string]bool{}, ssubs: map[string]bool{}}
 	c.Authed = len(s.Users) == 0
+	c.arrivals = &arrivalLog{w: s.W}
 	c.cnd = sync.NewCond(&c.mu)
 	s.nextConn++
 	s.conns = append(s.conns, c)
@@ -315,13 +321,64 @@ func (s *Server) dial() (net.Conn, error) {
 	s.W.mu.Unlock()
 	go c.readLoop()
 	go c.writeLoop()
-	return &clientConn{Conn: cli, addr: s.Addr}, nil
+	return &clientConn{Conn: cli, addr: s.Addr, arrivals: c.arrivals}, nil
+}
+
+// arrivalLog remembers when the client end started to write each chunk of bytes (net.Pipe is
+// unbuffered: a Write returns only when the server reads, which a slow command ahead can delay;
+// what matters to a client is when it put the bytes on the wire).
+type arrivalLog struct {
+	mu    sync.Mutex
+	w     *World
+	sent  int64
+	marks []arrivalMark
+}
+
+type arrivalMark struct{ upTo, at int64 }
+
+func (a *arrivalLog) wrote(n int) {
+	a.mu.Lock()
+	a.sent += int64(n)
+	a.marks = append(a.marks, arrivalMark{a.sent, a.w.Since()})
+	a.mu.Unlock()
+}
+
+// arrival returns when the client started the Write that carried the byte at offset off
+// (1-based count of bytes consumed by the server).
+func (a *arrivalLog) arrival(off int64) int64 {
+	a.mu.Lock()
+	defer a.mu.Unlock()
+	for len(a.marks) > 1 && a.marks[0].upTo < off {
+		a.marks = a.marks[1:]
+	}
+	if len(a.marks) == 0 {
+		return a.w.Since()
+	}
+	return a.marks[0].at
+}
+
+// countingReader counts the bytes the server took from the connection.
+type countingReader struct {
+	r     io.Reader
+	total int64
+}
+
+func (c *countingReader) Read(p []byte) (int, error) {
+	n, err := c.r.Read(p)
+	c.total += int64(n)
+	return n, err
 }
 
 // clientConn gives the client end a stable remote address.
 type clientConn struct {
 	net.Conn
-	addr string
+	addr     string
+	arrivals *arrivalLog
+}
+
+func (c *clientConn) Write(p []byte) (int, error) {
+	c.arrivals.wrote(len(p))
+	return c.Conn.Write(p)
 }
 
 type fakeAddr string
@@ -403,7 +460,8 @@ func (c *Conn) sleep(d time.Duration) bool {
 
 func (c *Conn) readLoop() {
 	defer c.S.W.wg.Done()
-	r := bufio.NewReaderSize(c.nc, 64<<10)
+	ar := &countingReader{r: c.nc}
+	r := bufio.NewReaderSize(ar, 64<<10)
 	for {
 		if r.Buffered() == 0 {
 			c.BurstIdx = 0
@@ -419,7 +477,7 @@ func (c *Conn) readLoop() {
 		c.nreq++
 		s := c.S
 		s.W.mu.Lock()
-		s.W.logLocked(Event{Server: s.Addr, Conn: c.ID, Kind: "recv", Req: req, Argv: argv})
+		s.W.logLocked(Event{Server: s.Addr, Conn: c.ID, Kind: "recv", Req: req, Argv: argv, Arr: c.arrivals.arrival(ar.total - int64(r.Buffered()))})
 		hung := c.hung
 		s.W.mu.Unlock()
 		if hung {
